@@ -1914,6 +1914,9 @@ dnslabel_table_add(struct dnslabel_table *table, const char *label, off_t pos)
 	int p;
 	if (table->n_labels == MAX_LABELS)
 		return (-1);
+	/* a compression pointer holds a 14-bit offset (RFC 1035 4.1.4) */
+	if (pos < 0 || pos > 0x3fff)
+		return (-1);
 	v = mm_strdup(label);
 	if (v == NULL)
 		return (-1);
